@@ -70,8 +70,13 @@ theorem typeAnns_fails (x : List Char) (h : ∀ c r, x = c :: r → c ≠ '(') :
     .ref "__", .lab "annotations" (.star (.ref "TypeAnnotation")), .lit [')'] false]) (FailsOn.lit (g := grammar) hl)))
   exact (FailsOn.ref lk_TypeAnnotations (by rw [rule_TypeAnnotations]; exact h1)).mono (by simp)
 
-theorem noAnns (x : List Char) (h : SepOk x) : ParsesTo grammar (.opt (.ref "TypeAnnotations")) x .nil x 11 :=
-  ParsesTo.opt_none (typeAnns_fails x (fun c r hx => (h c r hx).2.2))
+/-- The text does not start with `(` (no annotations follow). -/
+def NoParen (x : List Char) : Prop := ∀ c r, x = c :: r → c ≠ '('
+
+theorem SepOk.noParen {x} (h : SepOk x) : NoParen x := fun c r hx => (h c r hx).2.2
+
+theorem noAnns (x : List Char) (h : NoParen x) : ParsesTo grammar (.opt (.ref "TypeAnnotations")) x .nil x 11 :=
+  ParsesTo.opt_none (typeAnns_fails x h)
 
 theorem baseTypeName_parses (kw : List Char) (hkw : kw ∈ baseNames) (x : List Char) :
     ParsesTo grammar (.ref "BaseTypeName") (kw ++ x) (.act "BaseTypeName1" kw (.text kw)) x 14 := by
@@ -84,24 +89,24 @@ theorem baseTypeName_parses (kw : List Char) (hkw : kw ∈ baseNames) (x : List 
 
 /-- `BaseType` on a base type name followed by a gap of `_` and a separator. -/
 theorem baseType_parses (kw : List Char) (hkw : kw ∈ baseNames) (g rest : List Char) (hg : IsGap uBody g)
-    (hr : SepOk rest) (ht : TokHead rest) :
+    (hr : NoParen rest) (ht : TokHead rest) :
     ∃ ts, ParsesTo grammar (.ref "BaseType") (kw ++ (g ++ rest))
       (.act "BaseType1" (consumed (kw ++ (g ++ rest)) rest)
-        (.seq [.lab "name" (.act "BaseTypeName1" kw (.text kw)), .seq ts, .lab "annotations" .nil])) rest (2 * g.length + 50) := by
+        (.seq [.lab "name" (.act "BaseTypeName1" kw (.text kw)), .seq ts, .lab "annotations" .nil])) rest (2 * g.length + 90) := by
   obtain ⟨ts, hu⟩ := u_consumes g rest hg ht
   refine ⟨ts, ?_⟩
-  have h1 : ParsesTo grammar (.lab "name" (.ref "BaseTypeName")) (kw ++ (g ++ rest)) _ (g ++ rest) (2 * g.length + 40) :=
+  have h1 : ParsesTo grammar (.lab "name" (.ref "BaseTypeName")) (kw ++ (g ++ rest)) _ (g ++ rest) (2 * g.length + 80) :=
     (ParsesTo.lab (baseTypeName_parses kw hkw (g ++ rest))).mono (by omega)
-  have h2 : ParsesTo grammar (.ref "_") (g ++ rest) (.seq ts) rest (2 * g.length + 40) := hu.mono (by omega)
-  have h3 : ParsesTo grammar (.lab "annotations" (.opt (.ref "TypeAnnotations"))) rest (.lab "annotations" .nil) rest (2 * g.length + 40) :=
+  have h2 : ParsesTo grammar (.ref "_") (g ++ rest) (.seq ts) rest (2 * g.length + 80) := hu.mono (by omega)
+  have h3 : ParsesTo grammar (.lab "annotations" (.opt (.ref "TypeAnnotations"))) rest (.lab "annotations" .nil) rest (2 * g.length + 80) :=
     (ParsesTo.lab (noAnns rest hr)).mono (by omega)
   have hs := ParsesTo.act (tag := "BaseType1") (ParsesTo.seq (SeqRun.cons h1 (SeqRun.cons h2 (SeqRun.cons h3 SeqRun.nil))))
   exact (ParsesTo.ref lk_BaseType (by rw [rule_BaseType]; exact hs)).mono (by simp; omega)
 
 /-- `FieldType` on a base type name: the gap and nothing else is consumed after the name. -/
 theorem fieldType_base_parses (kw : List Char) (hkw : kw ∈ baseNames) (g rest : List Char) (hg : IsGap uBody g)
-    (hr : SepOk rest) (ht : TokHead rest) :
-    ∃ t, ParsesTo grammar (.ref "FieldType") (kw ++ (g ++ rest)) t rest (2 * g.length + 60) ∧
+    (hr : NoParen rest) (ht : TokHead rest) :
+    ∃ t, ParsesTo grammar (.ref "FieldType") (kw ++ (g ++ rest)) t rest (2 * g.length + 100) ∧
       textOf t = consumed (kw ++ (g ++ rest)) rest ∧ ∀ k, evTy (k + 1) t = some (.base kw []) := by
   obtain ⟨ts, hb⟩ := baseType_parses kw hkw g rest hg hr ht
   have hc := ParsesTo.act (tag := "FieldType1") (ParsesTo.lab (n := "typ") (ParsesTo.choice
@@ -254,8 +259,8 @@ end STy
 /-- The statement proved by induction: `FieldType` on the rendered type followed by a gap `g` of `_`
 and a separator: the type's value is `erase`, and the gap is either still there (named type) or consumed. -/
 def TyParses (s : STy) : Prop :=
-  ∀ (g rest : List Char), IsGap uBody g → SepOk (g ++ rest) → SepOk rest → TokHead rest →
-    ∃ t mid, ParsesTo grammar (.ref "FieldType") (s.render ++ (g ++ rest)) t mid (s.cost + 2 * g.length + 70) ∧
+  ∀ (g rest : List Char), IsGap uBody g → SepOk (g ++ rest) → NoParen rest → TokHead rest →
+    ∃ t mid, ParsesTo grammar (.ref "FieldType") (s.render ++ (g ++ rest)) t mid (s.cost + 2 * g.length + 110) ∧
       (mid = g ++ rest ∨ mid = rest) ∧ textOf t = consumed (s.render ++ (g ++ rest)) mid ∧
       ∀ k, s.depth ≤ k → evTy (k + 1) t = some s.erase
 
@@ -301,9 +306,9 @@ theorem IsWs.sepOk_append {w tail} (hw : IsWs w) (ht : SepOk tail) : SepOk (w ++
 /-- An element inside brackets: `WS` element `WS`, up to the closer. -/
 theorem bracket_elem (e : STy) (hok : e.Ok) (ih : TyParses e) (w1 w2 tail : List Char) (hw1 : IsWs w1) (hw2 : IsWs w2) (hc : Closer tail) :
     ∃ t1 te mid t2,
-      ParsesTo grammar (.ref "WS") (w1 ++ (e.render ++ (w2 ++ tail))) (.seq t1) (e.render ++ (w2 ++ tail)) (2 * w1.length + 30) ∧
-      ParsesTo grammar (.ref "FieldType") (e.render ++ (w2 ++ tail)) te mid (e.cost + 2 * w2.length + 70) ∧
-      ParsesTo grammar (.ref "WS") mid (.seq t2) tail (2 * w2.length + 30) ∧
+      ParsesTo grammar (.ref "WS") (w1 ++ (e.render ++ (w2 ++ tail))) (.seq t1) (e.render ++ (w2 ++ tail)) (2 * w1.length + 70) ∧
+      ParsesTo grammar (.ref "FieldType") (e.render ++ (w2 ++ tail)) te mid (e.cost + 2 * w2.length + 110) ∧
+      ParsesTo grammar (.ref "WS") mid (.seq t2) tail (2 * w2.length + 70) ∧
       ∀ k, e.depth ≤ k → evTy (k + 1) te = some e.erase := by
   obtain ⟨c, r, hr, hcp⟩ := e.render_head hok
   have hstop : StopsAt wsC (e.render ++ (w2 ++ tail)) := by
@@ -312,7 +317,7 @@ theorem bracket_elem (e : STy) (hok : e.Ok) (ih : TyParses e) (w1 w2 tail : List
     simp only [List.cons_append, List.cons.injEq] at h
     rw [← h.1]; exact idPart_not_ws hcp
   obtain ⟨t1, h1⟩ := ws_consumes w1 _ hw1 hstop
-  obtain ⟨te, mid, h2, hmid, _, hev⟩ := ih w2 tail hw2.gap_u (hw2.sepOk_append hc.sep) hc.sep hc.tok
+  obtain ⟨te, mid, h2, hmid, _, hev⟩ := ih w2 tail hw2.gap_u (hw2.sepOk_append hc.sep) hc.sep.noParen hc.tok
   rcases hmid with rfl | rfl
   · obtain ⟨t2, h3⟩ := ws_consumes w2 tail hw2 hc.noWs
     exact ⟨t1, te, _, t2, h1, h2, h3, hev⟩
@@ -339,28 +344,28 @@ theorem list_case (w1 : List Char) (e : STy) (w2 : List Char) (hok : (STy.list w
   rw [hin]
   -- the seven elements of ListType at a common fuel bound
   have s1 : ParsesTo grammar (.lit kwList false) (kwList ++ (w1 ++ (e.render ++ (w2 ++ '>' :: (g ++ rest))))) (.text kwList) _
-      (e.cost + 2 * w1.length + 2 * w2.length + 2 * g.length + 71) := (ParsesTo.lit_append kwList _).mono (by omega)
-  have s2 := h1.mono (by omega : 2 * w1.length + 30 ≤ e.cost + 2 * w1.length + 2 * w2.length + 2 * g.length + 71)
-  have s3 := (ParsesTo.lab (n := "typ") h2).mono (by omega : e.cost + 2 * w2.length + 70 + 1 ≤ e.cost + 2 * w1.length + 2 * w2.length + 2 * g.length + 71)
-  have s4 := h3.mono (by omega : 2 * w2.length + 30 ≤ e.cost + 2 * w1.length + 2 * w2.length + 2 * g.length + 71)
+      (e.cost + 2 * w1.length + 2 * w2.length + 2 * g.length + 111) := (ParsesTo.lit_append kwList _).mono (by omega)
+  have s2 := h1.mono (by omega : 2 * w1.length + 70 ≤ e.cost + 2 * w1.length + 2 * w2.length + 2 * g.length + 111)
+  have s3 := (ParsesTo.lab (n := "typ") h2).mono (by omega : e.cost + 2 * w2.length + 110 + 1 ≤ e.cost + 2 * w1.length + 2 * w2.length + 2 * g.length + 111)
+  have s4 := h3.mono (by omega : 2 * w2.length + 70 ≤ e.cost + 2 * w1.length + 2 * w2.length + 2 * g.length + 111)
   have s5 : ParsesTo grammar (.lit ['>'] false) ('>' :: (g ++ rest)) (.text ['>']) (g ++ rest)
-      (e.cost + 2 * w1.length + 2 * w2.length + 2 * g.length + 71) := (ParsesTo.lit_append ['>'] (g ++ rest)).mono (by omega)
-  have s6 := hu.mono (by omega : 2 * g.length + 30 ≤ e.cost + 2 * w1.length + 2 * w2.length + 2 * g.length + 71)
-  have s7 := (ParsesTo.lab (n := "annotations") (noAnns rest hr)).mono (by omega : 11 + 1 ≤ e.cost + 2 * w1.length + 2 * w2.length + 2 * g.length + 71)
+      (e.cost + 2 * w1.length + 2 * w2.length + 2 * g.length + 111) := (ParsesTo.lit_append ['>'] (g ++ rest)).mono (by omega)
+  have s6 := hu.mono (by omega : 2 * g.length + 70 ≤ e.cost + 2 * w1.length + 2 * w2.length + 2 * g.length + 111)
+  have s7 := (ParsesTo.lab (n := "annotations") (noAnns rest hr)).mono (by omega : 11 + 1 ≤ e.cost + 2 * w1.length + 2 * w2.length + 2 * g.length + 111)
   have hl := ParsesTo.ref lk_ListType (by
     rw [rule_ListType]
     exact ParsesTo.act (tag := "ListType1") (ParsesTo.seq (SeqRun.cons s1 (SeqRun.cons s2 (SeqRun.cons s3 (SeqRun.cons s4
       (SeqRun.cons s5 (SeqRun.cons s6 (SeqRun.cons s7 SeqRun.nil)))))))))
   have hm := (mapType_fails _ hcf (by simp [kwMap, kwList, matchLit])).mono
-    (by omega : 24 ≤ 7 + (e.cost + 2 * w1.length + 2 * w2.length + 2 * g.length + 71) + 2 + 1 + 1)
+    (by omega : 24 ≤ 7 + (e.cost + 2 * w1.length + 2 * w2.length + 2 * g.length + 111) + 2 + 1 + 1)
   have hs := (setType_fails _ hcf (by simp [kwSet, kwList, matchLit])).mono
-    (by omega : 20 ≤ 7 + (e.cost + 2 * w1.length + 2 * w2.length + 2 * g.length + 71) + 2 + 1 + 1)
+    (by omega : 20 ≤ 7 + (e.cost + 2 * w1.length + 2 * w2.length + 2 * g.length + 111) + 2 + 1 + 1)
   have hc := ParsesTo.ref lk_ContainerType (by
     rw [rule_ContainerType]
     exact ParsesTo.act (tag := "ContainerType1") (ParsesTo.lab (n := "typ") (ParsesTo.choice
       (ChoiceRun.tail hm (ChoiceRun.tail hs (ChoiceRun.head (es := []) (by simpa using hl)))))))
   have hb := (baseType_fails _ hbf).mono
-    (by omega : 22 ≤ 3 + (7 + (e.cost + 2 * w1.length + 2 * w2.length + 2 * g.length + 71) + 2 + 1 + 1) + 2 + 1 + 1 + 1)
+    (by omega : 22 ≤ 3 + (7 + (e.cost + 2 * w1.length + 2 * w2.length + 2 * g.length + 111) + 2 + 1 + 1) + 2 + 1 + 1 + 1)
   have hf := ParsesTo.ref lk_FieldType (by
     rw [rule_FieldType]
     exact ParsesTo.act (tag := "FieldType1") (ParsesTo.lab (n := "typ") (ParsesTo.choice
@@ -382,28 +387,28 @@ theorem set_case (w1 : List Char) (e : STy) (w2 : List Char) (hok : (STy.set w1 
     simp [STy.render, List.append_assoc]
   obtain ⟨hbf, hcf⟩ := base_fails_on_container kwSet (w1 ++ (e.render ++ (w2 ++ '>' :: (g ++ rest)))) (Or.inr (Or.inl rfl))
   rw [hin]
-  have s0 := (cppOpt_none _ hcf).mono (by omega : 8 ≤ e.cost + 2 * w1.length + 2 * w2.length + 2 * g.length + 71)
+  have s0 := (cppOpt_none _ hcf).mono (by omega : 8 ≤ e.cost + 2 * w1.length + 2 * w2.length + 2 * g.length + 111)
   have s1 : ParsesTo grammar (.lit kwSet false) (kwSet ++ (w1 ++ (e.render ++ (w2 ++ '>' :: (g ++ rest))))) (.text kwSet) _
-      (e.cost + 2 * w1.length + 2 * w2.length + 2 * g.length + 71) := (ParsesTo.lit_append kwSet _).mono (by omega)
-  have s2 := h1.mono (by omega : 2 * w1.length + 30 ≤ e.cost + 2 * w1.length + 2 * w2.length + 2 * g.length + 71)
-  have s3 := (ParsesTo.lab (n := "typ") h2).mono (by omega : e.cost + 2 * w2.length + 70 + 1 ≤ e.cost + 2 * w1.length + 2 * w2.length + 2 * g.length + 71)
-  have s4 := h3.mono (by omega : 2 * w2.length + 30 ≤ e.cost + 2 * w1.length + 2 * w2.length + 2 * g.length + 71)
+      (e.cost + 2 * w1.length + 2 * w2.length + 2 * g.length + 111) := (ParsesTo.lit_append kwSet _).mono (by omega)
+  have s2 := h1.mono (by omega : 2 * w1.length + 70 ≤ e.cost + 2 * w1.length + 2 * w2.length + 2 * g.length + 111)
+  have s3 := (ParsesTo.lab (n := "typ") h2).mono (by omega : e.cost + 2 * w2.length + 110 + 1 ≤ e.cost + 2 * w1.length + 2 * w2.length + 2 * g.length + 111)
+  have s4 := h3.mono (by omega : 2 * w2.length + 70 ≤ e.cost + 2 * w1.length + 2 * w2.length + 2 * g.length + 111)
   have s5 : ParsesTo grammar (.lit ['>'] false) ('>' :: (g ++ rest)) (.text ['>']) (g ++ rest)
-      (e.cost + 2 * w1.length + 2 * w2.length + 2 * g.length + 71) := (ParsesTo.lit_append ['>'] (g ++ rest)).mono (by omega)
-  have s6 := hu.mono (by omega : 2 * g.length + 30 ≤ e.cost + 2 * w1.length + 2 * w2.length + 2 * g.length + 71)
-  have s7 := (ParsesTo.lab (n := "annotations") (noAnns rest hr)).mono (by omega : 11 + 1 ≤ e.cost + 2 * w1.length + 2 * w2.length + 2 * g.length + 71)
+      (e.cost + 2 * w1.length + 2 * w2.length + 2 * g.length + 111) := (ParsesTo.lit_append ['>'] (g ++ rest)).mono (by omega)
+  have s6 := hu.mono (by omega : 2 * g.length + 70 ≤ e.cost + 2 * w1.length + 2 * w2.length + 2 * g.length + 111)
+  have s7 := (ParsesTo.lab (n := "annotations") (noAnns rest hr)).mono (by omega : 11 + 1 ≤ e.cost + 2 * w1.length + 2 * w2.length + 2 * g.length + 111)
   have hl := ParsesTo.ref lk_SetType (by
     rw [rule_SetType]
     exact ParsesTo.act (tag := "SetType1") (ParsesTo.seq (SeqRun.cons s0 (SeqRun.cons s1 (SeqRun.cons s2 (SeqRun.cons s3 (SeqRun.cons s4
       (SeqRun.cons s5 (SeqRun.cons s6 (SeqRun.cons s7 SeqRun.nil))))))))))
   have hm := (mapType_fails _ hcf (by simp [kwMap, kwSet, matchLit])).mono
-    (by omega : 24 ≤ 8 + (e.cost + 2 * w1.length + 2 * w2.length + 2 * g.length + 71) + 2 + 1 + 1)
+    (by omega : 24 ≤ 8 + (e.cost + 2 * w1.length + 2 * w2.length + 2 * g.length + 111) + 2 + 1 + 1)
   have hc := ParsesTo.ref lk_ContainerType (by
     rw [rule_ContainerType]
     exact ParsesTo.act (tag := "ContainerType1") (ParsesTo.lab (n := "typ") (ParsesTo.choice
       (ChoiceRun.tail hm (ChoiceRun.head (es := [.ref "ListType"]) (by simpa using hl))))))
   have hb := (baseType_fails _ hbf).mono
-    (by omega : 22 ≤ 3 + (8 + (e.cost + 2 * w1.length + 2 * w2.length + 2 * g.length + 71) + 2 + 1 + 1) + 2 + 1 + 1 + 1)
+    (by omega : 22 ≤ 3 + (8 + (e.cost + 2 * w1.length + 2 * w2.length + 2 * g.length + 111) + 2 + 1 + 1) + 2 + 1 + 1 + 1)
   have hf := ParsesTo.ref lk_FieldType (by
     rw [rule_FieldType]
     exact ParsesTo.act (tag := "FieldType1") (ParsesTo.lab (n := "typ") (ParsesTo.choice
@@ -430,27 +435,27 @@ theorem map_case (w1 : List Char) (k : STy) (w2 w3 : List Char) (v : STy) (w4 : 
     (Or.inr (Or.inr rfl))
   rw [hin]
   have s0 := (cppOpt_none _ hcf).mono
-    (by omega : 8 ≤ k.cost + v.cost + 2 * w1.length + 2 * w2.length + 2 * w3.length + 2 * w4.length + 2 * g.length + 71)
+    (by omega : 8 ≤ k.cost + v.cost + 2 * w1.length + 2 * w2.length + 2 * w3.length + 2 * w4.length + 2 * g.length + 111)
   have s1 : ParsesTo grammar (.lit kwMap false) (kwMap ++ (w1 ++ (k.render ++ (w2 ++ ',' :: (w3 ++ (v.render ++ (w4 ++ '>' :: (g ++ rest))))))))
-      (.text kwMap) _ (k.cost + v.cost + 2 * w1.length + 2 * w2.length + 2 * w3.length + 2 * w4.length + 2 * g.length + 71) :=
+      (.text kwMap) _ (k.cost + v.cost + 2 * w1.length + 2 * w2.length + 2 * w3.length + 2 * w4.length + 2 * g.length + 111) :=
     (ParsesTo.lit_append kwMap _).mono (by omega)
-  have s2 := k1.mono (by omega : 2 * w1.length + 30 ≤ k.cost + v.cost + 2 * w1.length + 2 * w2.length + 2 * w3.length + 2 * w4.length + 2 * g.length + 71)
+  have s2 := k1.mono (by omega : 2 * w1.length + 70 ≤ k.cost + v.cost + 2 * w1.length + 2 * w2.length + 2 * w3.length + 2 * w4.length + 2 * g.length + 111)
   have s3 := (ParsesTo.lab (n := "key") k2).mono
-    (by omega : k.cost + 2 * w2.length + 70 + 1 ≤ k.cost + v.cost + 2 * w1.length + 2 * w2.length + 2 * w3.length + 2 * w4.length + 2 * g.length + 71)
-  have s4 := k3.mono (by omega : 2 * w2.length + 30 ≤ k.cost + v.cost + 2 * w1.length + 2 * w2.length + 2 * w3.length + 2 * w4.length + 2 * g.length + 71)
+    (by omega : k.cost + 2 * w2.length + 110 + 1 ≤ k.cost + v.cost + 2 * w1.length + 2 * w2.length + 2 * w3.length + 2 * w4.length + 2 * g.length + 111)
+  have s4 := k3.mono (by omega : 2 * w2.length + 70 ≤ k.cost + v.cost + 2 * w1.length + 2 * w2.length + 2 * w3.length + 2 * w4.length + 2 * g.length + 111)
   have s5 : ParsesTo grammar (.lit [','] false) (',' :: (w3 ++ (v.render ++ (w4 ++ '>' :: (g ++ rest))))) (.text [',']) _
-      (k.cost + v.cost + 2 * w1.length + 2 * w2.length + 2 * w3.length + 2 * w4.length + 2 * g.length + 71) :=
+      (k.cost + v.cost + 2 * w1.length + 2 * w2.length + 2 * w3.length + 2 * w4.length + 2 * g.length + 111) :=
     (ParsesTo.lit_append [','] _).mono (by omega)
-  have s6 := v1.mono (by omega : 2 * w3.length + 30 ≤ k.cost + v.cost + 2 * w1.length + 2 * w2.length + 2 * w3.length + 2 * w4.length + 2 * g.length + 71)
+  have s6 := v1.mono (by omega : 2 * w3.length + 70 ≤ k.cost + v.cost + 2 * w1.length + 2 * w2.length + 2 * w3.length + 2 * w4.length + 2 * g.length + 111)
   have s7 := (ParsesTo.lab (n := "value") v2).mono
-    (by omega : v.cost + 2 * w4.length + 70 + 1 ≤ k.cost + v.cost + 2 * w1.length + 2 * w2.length + 2 * w3.length + 2 * w4.length + 2 * g.length + 71)
-  have s8 := v3.mono (by omega : 2 * w4.length + 30 ≤ k.cost + v.cost + 2 * w1.length + 2 * w2.length + 2 * w3.length + 2 * w4.length + 2 * g.length + 71)
+    (by omega : v.cost + 2 * w4.length + 110 + 1 ≤ k.cost + v.cost + 2 * w1.length + 2 * w2.length + 2 * w3.length + 2 * w4.length + 2 * g.length + 111)
+  have s8 := v3.mono (by omega : 2 * w4.length + 70 ≤ k.cost + v.cost + 2 * w1.length + 2 * w2.length + 2 * w3.length + 2 * w4.length + 2 * g.length + 111)
   have s9 : ParsesTo grammar (.lit ['>'] false) ('>' :: (g ++ rest)) (.text ['>']) (g ++ rest)
-      (k.cost + v.cost + 2 * w1.length + 2 * w2.length + 2 * w3.length + 2 * w4.length + 2 * g.length + 71) :=
+      (k.cost + v.cost + 2 * w1.length + 2 * w2.length + 2 * w3.length + 2 * w4.length + 2 * g.length + 111) :=
     (ParsesTo.lit_append ['>'] (g ++ rest)).mono (by omega)
-  have s10 := hu.mono (by omega : 2 * g.length + 30 ≤ k.cost + v.cost + 2 * w1.length + 2 * w2.length + 2 * w3.length + 2 * w4.length + 2 * g.length + 71)
+  have s10 := hu.mono (by omega : 2 * g.length + 70 ≤ k.cost + v.cost + 2 * w1.length + 2 * w2.length + 2 * w3.length + 2 * w4.length + 2 * g.length + 111)
   have s11 := (ParsesTo.lab (n := "annotations") (noAnns rest hr)).mono
-    (by omega : 11 + 1 ≤ k.cost + v.cost + 2 * w1.length + 2 * w2.length + 2 * w3.length + 2 * w4.length + 2 * g.length + 71)
+    (by omega : 11 + 1 ≤ k.cost + v.cost + 2 * w1.length + 2 * w2.length + 2 * w3.length + 2 * w4.length + 2 * g.length + 111)
   have hl := ParsesTo.ref lk_MapType (by
     rw [rule_MapType]
     exact ParsesTo.act (tag := "MapType1") (ParsesTo.seq (SeqRun.cons s0 (SeqRun.cons s1 (SeqRun.cons s2 (SeqRun.cons s3 (SeqRun.cons s4
@@ -460,7 +465,7 @@ theorem map_case (w1 : List Char) (k : STy) (w2 w3 : List Char) (v : STy) (w4 : 
     exact ParsesTo.act (tag := "ContainerType1") (ParsesTo.lab (n := "typ") (ParsesTo.choice
       (ChoiceRun.head (es := [.ref "SetType", .ref "ListType"]) (by simpa using hl)))))
   have hb := (baseType_fails _ hbf).mono
-    (by omega : 22 ≤ 3 + (12 + (k.cost + v.cost + 2 * w1.length + 2 * w2.length + 2 * w3.length + 2 * w4.length + 2 * g.length + 71) + 2 + 1 + 1) + 2 + 1 + 1 + 1)
+    (by omega : 22 ≤ 3 + (12 + (k.cost + v.cost + 2 * w1.length + 2 * w2.length + 2 * w3.length + 2 * w4.length + 2 * g.length + 111) + 2 + 1 + 1) + 2 + 1 + 1 + 1)
   have hf := ParsesTo.ref lk_FieldType (by
     rw [rule_FieldType]
     exact ParsesTo.act (tag := "FieldType1") (ParsesTo.lab (n := "typ") (ParsesTo.choice
